@@ -61,8 +61,8 @@ def sample_of(world, tail=60):
 def note_trace(world, ctx, tail=80):
     """Human-readable trace stored in replay files."""
     st = world.state
+    ctx.notes['config'] = world.cfg
     if st is None:
-        ctx.notes['config'] = world.cfg
         return
     ctx.notes.update({
         'config': world.cfg, 'profile': world.profile_name, 'dealer': world.dealer,
